@@ -69,7 +69,7 @@ func MsgData(payload []byte) []byte {
 }
 
 func u64(v uint64) *uint64 { return &v }
-func bp(v bool) *bool       { return &v }
+func bp(v bool) *bool      { return &v }
 
 var waitingValues = []uint64{0, 1, 999, 1000, 1001, 29999, 30000, 30001, 59999, 60000, 66000, 1 << 32, 1 << 62, 1<<63 - 1}
 
